@@ -246,6 +246,29 @@ pub mod atomics {
             &self.0
         }
     }
+
+    /// The extent word of a record (reader count + retired bit): a scheduling point after
+    /// each load, i.e. between a load and the read-modify-write that follows it.
+    #[derive(Debug, Default)]
+    pub struct AtomicU32(std::sync::atomic::AtomicU32);
+
+    impl AtomicU32 {
+        pub const fn new(value: u32) -> Self {
+            Self(std::sync::atomic::AtomicU32::new(value))
+        }
+        #[inline]
+        pub fn load(&self, order: Ordering) -> u32 {
+            let value = self.0.load(order);
+            super::sched("ext_load");
+            value
+        }
+    }
+    impl std::ops::Deref for AtomicU32 {
+        type Target = std::sync::atomic::AtomicU32;
+        fn deref(&self) -> &Self::Target {
+            &self.0
+        }
+    }
 }
 
 /// Makes every further `io_uring_enter` on this ring fail (the ring's fd number now names
